@@ -3,22 +3,63 @@
 package cache
 
 import (
+	"fmt"
+	"sort"
+	"strings"
 	"time"
 
 	"github.com/zeromicro/go-zero/core/collection"
+	"github.com/zeromicro/go-zero/core/threading"
+	"github.com/zeromicro/go-zero/core/timex"
 )
+
+var verifParked *collection.TimingWheel
 
 // VerifParkCleaner replaces the package's clean-task timing wheel (1 s real-time ticks) by one
 // that ticks once an hour, exactly as cleaner_test.go / cachenode_test.go swap it for a faster
-// one. Failed invalidations are still registered through AddCleanTask, but the retry never runs
-// inside the lifetime of a check process: the retry is real-time, process-global and therefore
-// outside the explored state (the C06 oracle stops demanding coherence for a key whose
-// invalidation failed).
+// one: outside the history engine (schedule exploration, set-up) no retry runs.
 func VerifParkCleaner() error {
-	tw, err := collection.NewTimingWheel(time.Hour, timingWheelSlots, clean)
+	if verifParked == nil {
+		tw, err := collection.NewTimingWheel(time.Hour, timingWheelSlots, clean)
+		if err != nil {
+			return err
+		}
+		verifParked = tw
+	}
+	timingWheel.Store(verifParked)
+	return nil
+}
+
+// VerifInstallCleaner gives the package a fresh clean-task wheel (same interval, slots and
+// execute function `clean` as init() builds) on a harness-owned ticker, and a fresh task runner.
+// Called inside a vsched execution, wheel and runner goroutines are controlled threads, so the
+// harness decides when a second passes (one tick) and can wait for the retries to finish
+// (Quiesce). onAttempt is told about every retry the wheel fires, before it runs.
+func VerifInstallCleaner(ticker timex.Ticker, onAttempt func(keys []string, delay time.Duration)) error {
+	tw, err := collection.NewTimingWheelWithTicker(time.Second, timingWheelSlots, func(key, value any) {
+		if dt, ok := value.(delayTask); ok && onAttempt != nil {
+			onAttempt(append([]string(nil), dt.keys...), dt.delay)
+		}
+		clean(key, value)
+	}, ticker)
 	if err != nil {
 		return err
 	}
 	timingWheel.Store(tw)
+	taskRunner = threading.NewTaskRunner(cleanWorkers)
 	return nil
+}
+
+// VerifCleanerPending renders the pending retry tasks of the installed wheel:
+// "<keys>/<current delay>/<ticks until it fires>", sorted (read-only; call at quiescence).
+func VerifCleanerPending() []string {
+	tw := timingWheel.Load().(*collection.TimingWheel)
+	var out []string
+	for _, e := range collection.VerifC06Pending(tw) {
+		if dt, ok := e.Value.(delayTask); ok {
+			out = append(out, fmt.Sprintf("%s/%v/%d", strings.Join(dt.keys, ","), dt.delay, e.Ticks))
+		}
+	}
+	sort.Strings(out)
+	return out
 }
